@@ -46,6 +46,7 @@ def history(draw):
     k = [0]
     pool, slots, glyph_runs = [], [], [0]
     power_runs = [0]
+    rt_flags = [0]
 
     def text(space):
         cls = draw(st.sampled_from(["empty", "short", "exact", "over", "long"]))
@@ -61,6 +62,20 @@ def history(draw):
             serial.append(s)
             return v
         return repr(s)
+
+    def flag():
+        # on/off argument: a literal, or (one in three) a run-time value computed from a String read off the serial tape
+        b = draw(st.booleans())
+        if draw(st.integers(0, 2)) != 0:
+            return str(b)
+        s = draw(st.text(alphabet="abcxyz", min_size=1, max_size=6))
+        k[0] += 1
+        v = f"t{k[0]}"
+        lines.append(f"{v} = mon.read()")
+        serial.append(s)
+        rt_flags[0] += 1
+        n = len(s)
+        return f"len({v}) > {n - 1}" if b else f"len({v}) > {n}"
 
     def align():
         a = draw(st.sampled_from(["left", "left", "center", "right"]))
@@ -133,13 +148,13 @@ def history(draw):
                         continue
                     lines.append(f"lcd.brightness({draw(st.sampled_from([0, 1, 77, 128, 255]))})")
                 else:
-                    lines.append(f"lcd.{what}({draw(st.booleans())})")
+                    lines.append(f"lcd.{what}({flag()})")
                 ops.append({"op": what, "row": None, "full": False})
                 lines.append("mon.write('@@DUMP')")
             power_runs[0] += 1
             continue
         elif o in ("display", "backlight"):
-            lines.append(f"lcd.{o}({draw(st.booleans())})")
+            lines.append(f"lcd.{o}({flag()})")
             ops.append({"op": o, "row": None, "full": False})
         elif o == "brightness":
             if "bl" not in wiring:
@@ -287,7 +302,8 @@ def evaluate(case):
                 if m.group(1) == "brightness":
                     st_b = max(0, min(255, int(m.group(2))))
                 else:
-                    st_on = m.group(2) == "True"
+                    reads = [l.split(" = ")[0] for l in src.split("\n") if l.endswith(" = mon.read()")]
+                    st_on = bool(eval(m.group(2), {"len": len, "__builtins__": {}}, dict(zip(reads, case["serial"]))))
             want = st_b if st_on else 0
             if lvl[j] is not None and lvl[j] != want:
                 return "FAIL", [mk("backlight-pin-level", f"after `{ln}`: pin 44 at {want}", lvl[j])]
